@@ -430,6 +430,29 @@ def violate(tree, cid):
     return t
 
 
+def malform(tree, rng):
+    """malformed stream: non-integer repetition count / range bound, zero step, negative measurement window"""
+    t = copy.deepcopy(tree)
+    ns = list(nodes(t))
+    rng.shuffle(ns)
+    for n in ns:
+        k = n['k']
+        choice = rng.random()
+        if k == 'rep' and choice < 0.5:
+            n['count'] = C(F(rng.choice([1, 3]), 2)) if rng.random() < 0.5 else ['+', n['count'], C(F(1, 2))]
+            return t, 'noninteger-count'
+        if k == 'for' and choice < 0.4:
+            n['st'] = C(0)
+            return t, 'zero-step'
+        if k == 'for' and choice < 0.7:
+            n['b'] = ['+', n['b'], C(F(1, 2))]
+            return t, 'noninteger-bound'
+        if 'ms' in n and choice > 0.6:
+            n['ms'] = [[C(-1), C(1)]]
+            return t, 'negative-window'
+    return None, None
+
+
 def gen_tree(rng, max_depth):
     for _ in range(50):
         g = Gen(rng, max_depth)
@@ -472,6 +495,10 @@ def gen_cases(rng, tier, ctx, every_constraint=False):
             cases.append(mk_case(tree, ref2, 'exact', rng, tag='perturbed'))
         if rng.random() < 0.35:
             cases.append(mk_case(tree, ref, rng.choice(['exact', 'removed']), rng, drop=True, tag='drop'))
+        if rng.random() < 0.2:
+            bad, what = malform(tree, rng)
+            if bad is not None and sympy_ok(bad):
+                cases.append(mk_case(bad, ref, rng.choice(['exact', 'exact', 'removed']), rng, tag='malformed:' + what))
     return cases
 
 
@@ -658,7 +685,21 @@ def histogram_keys(case, obs):
     return keys
 
 
+def _has_product(e):
+    return e[0] == '*' or (e[0] in '+-' and (_has_product(e[1]) or _has_product(e[2])))
+
+
 def classify(case, obs):
+    """known finding: a FunctionPT whose expression contains a product, a declared name is not supplied, and the
+    implementation nevertheless returned (program / None)"""
+    if 'names' not in obs:
+        return None
+    missing = set(obs['names']) - set(obs['values'])
+    if not missing or obs['out'] not in ('program', 'none'):
+        return None
+    for n in nodes(case['tree']):
+        if n['k'] == 'func' and any(_has_product(r) for r in n['reads']):
+            return 'function-zero-factor-hides-missing-parameter'
     return None
 
 
